@@ -480,7 +480,7 @@ func (p *Program) staticEffects(cfg *PropConfig, ld LoadSpec) []*Obligation {
 			}
 		}
 	}
-	var clock, maporder, gwrite, floats []string
+	var clock, maporder, gwrite, floats, inplace []string
 	nfun, nsites := 0, 0
 	for _, key := range sortedKeys(p.funcsByKey) {
 		fn := p.funcsByKey[key]
@@ -532,6 +532,15 @@ func (p *Program) staticEffects(cfg *PropConfig, ld LoadSpec) []*Obligation {
 						}
 					}
 				case *ssa.Call:
+					// in-place arithmetic (the ...Mut methods of cosmossdk.io/math) writes through the *big.Int the value
+					// shares with every copy of it: on anything but a value made in this function it changes a parameter,
+					// a registry entry or a cached object for the rest of the process lifetime
+					if sc := in.Call.StaticCallee(); sc != nil && isMathMut(sc) && len(in.Call.Args) > 0 && allowed["globalwrite"] == "" {
+						nsites++
+						if !freshMathValue(in.Call.Args[0], map[ssa.Value]bool{}) {
+							inplace = append(inplace, fmt.Sprintf("%s calls %s on a value it did not create: in-place arithmetic on a shared number (%s)", key, sc.Name(), x.pos(in.Pos())))
+						}
+					}
 					// process-local mutable state held by a keeper (a cache, a memo table): what it returns depends on what this
 					// process happened to execute before (CheckTx, simulations, rolled-back transactions, a restart), not on chain data
 					if sc := in.Call.StaticCallee(); sc != nil && syncMutators[sc.String()] && !wiring && !strings.HasPrefix(fn.Name(), "New") && allowed["globalwrite"] == "" {
@@ -606,6 +615,7 @@ func (p *Program) staticEffects(cfg *PropConfig, ld LoadSpec) []*Obligation {
 		mk("hostclock", clock, fmt.Sprintf("%d functions: no host clock / OS / global RNG value reaches anything but a logger", nfun)),
 		mk("maporder", maporder, fmt.Sprintf("%d functions: every range over a Go map is order-insensitive", nfun)),
 		mk("globalwrite", gwrite, fmt.Sprintf("%d functions: no store to package-level variables outside init", nfun)),
+		mk("inplace", inplace, fmt.Sprintf("%d functions: in-place (...Mut) arithmetic only on numbers created in the same function", nfun)),
 		mk("float", floats, fmt.Sprintf("%d functions: no fusable floating-point multiply-add and no math function without a bit-exact specification", nfun)),
 	}
 }
@@ -907,6 +917,57 @@ func (p *Program) loopWrites(body map[*ssa.BasicBlock]bool, resolve func(ssa.Val
 
 // globalRoot: the package-level variable an address or a container value is derived from (field / element addresses,
 // loads of a global map or slice), or nil.
+// isMathMut: an in-place method of cosmossdk.io/math (LegacyDec.AddMut, MulIntMut, ..., Int.BigIntMut)
+func isMathMut(fn *ssa.Function) bool {
+	if fn.Pkg == nil || fn.Pkg.Pkg.Path() != "cosmossdk.io/math" || fn.Signature.Recv() == nil {
+		return false
+	}
+	return strings.HasSuffix(fn.Name(), "Mut")
+}
+
+// freshMathValue: the number was made in this function by cosmossdk.io/math itself (a constructor or a copying
+// operation), possibly updated in place since - nothing else can hold its *big.Int
+func freshMathValue(v ssa.Value, seen map[ssa.Value]bool) bool {
+	if seen[v] {
+		return true
+	}
+	seen[v] = true
+	switch t := v.(type) {
+	case *ssa.Call:
+		sc := t.Call.StaticCallee()
+		if sc == nil || sc.Pkg == nil || sc.Pkg.Pkg.Path() != "cosmossdk.io/math" {
+			return false
+		}
+		if isMathMut(sc) {
+			return len(t.Call.Args) > 0 && freshMathValue(t.Call.Args[0], seen)
+		}
+		return true
+	case *ssa.Phi:
+		for _, e := range t.Edges {
+			if !freshMathValue(e, seen) {
+				return false
+			}
+		}
+		return true
+	case *ssa.UnOp:
+		if a, ok := t.X.(*ssa.Alloc); ok && t.Op == token.MUL {
+			for _, r := range *a.Referrers() {
+				switch ri := r.(type) {
+				case *ssa.Store:
+					if ri.Addr != a || !freshMathValue(ri.Val, seen) {
+						return false
+					}
+				case *ssa.UnOp:
+				default:
+					return false
+				}
+			}
+			return true
+		}
+	}
+	return false
+}
+
 // mutators of the process-local containers of package sync
 var syncMutators = map[string]bool{
 	"(*sync.Map).Store": true, "(*sync.Map).LoadOrStore": true, "(*sync.Map).LoadAndDelete": true, "(*sync.Map).Delete": true,
